@@ -33,8 +33,8 @@ H2 = ("h2", 11211)
 H3 = ("h3", 11211)
 
 
-def new_net(chooser=None, menu=None, trunc="quick", servers=(H1, H2)):
-    net = simnet.SimNet(chooser=chooser, menu=menu, trunc=trunc)
+def new_net(chooser=None, menu=None, trunc="quick", servers=(H1, H2), delivery="whole"):
+    net = simnet.SimNet(chooser=chooser, menu=menu, trunc=trunc, delivery=delivery)
     net.owner_classes = (Client,)
     PROXY.current = net.clock
     for h, p in servers:
